@@ -31,7 +31,7 @@ static std::string AsciiType(std::string s) {
   rep("ℬ", "B"); rep("×", "*"); return s;
 }
 static semantic::TextInterpretation TextOf(const json& ks) { semantic::TextInterpretation ti; for (auto& k : ks) ti.SetInterpretantFor(k.get<int>(), "e" + std::to_string(k.get<int>())); return ti; }
-static StructuredData PairsOf(const json& d) { std::vector<StructuredData> v; for (auto& p : d) v.push_back(Factory::TupleV({ p[0].get<int>(), p[1].get<int>() })); return Factory::Set(v); }
+static StructuredData PairsOf(const json& d) { std::vector<StructuredData> v; for (auto& p : d) { if (p.is_array()) v.push_back(Factory::TupleV({ p[0].get<int>(), p[1].get<int>() })); else v.push_back(Factory::Val(p.get<int>())); } return Factory::Set(v); }
 
 // what the model shows for one constituent
 static json Shown(const RSModel& m, EntityUID u) {
@@ -64,7 +64,7 @@ static void StartModel(RSModel& m, bool withStruct, bool late, bool func) {
 static void Apply(RSModel& m, const json& op) {
   const std::string o = op["op"]; const EntityUID u = op["u"].get<EntityUID>();
   g_uids.clear();
-  if (o == "Emplace") { g_uids.push_back(op["fresh"].get<EntityUID>()); m.Emplace(op["k"] == "axiom" ? CstType::axiom : op["k"] == "base" ? CstType::base : CstType::term, DefText(op["d"])); }
+  if (o == "Emplace") { g_uids.push_back(op["fresh"].get<EntityUID>()); m.Emplace(op["k"] == "axiom" ? CstType::axiom : op["k"] == "base" ? CstType::base : op["k"] == "structured" ? CstType::structured : CstType::term, DefText(op["d"])); }
   else if (o == "Erase") m.Erase(u);
   else if (o == "SetExpression") m.SetExpressionFor(u, DefText(op["d"]));
   else if (o == "AddBasicElement") m.Values().AddBasicElement(u, "new");
@@ -77,7 +77,7 @@ static void Apply(RSModel& m, const json& op) {
 
 static void Handle(const json& c, vh::Report& r) {
   auto m = std::make_unique<RSModel>();
-  StartModel(*m, c["preset"] == "struct", c["preset"] == "late", c["preset"] == "func");
+  StartModel(*m, c["preset"] == "struct", c["preset"] == "late" || c["preset"] == "lates", c["preset"] == "func");
   std::string last;
   for (const auto& op : c["hist"]) { Apply(*m, op); last = op["op"]; r.Count("call." + last); }
   const json wit = { {"preset", c["preset"]}, {"hist", c["hist"]} };
